@@ -891,6 +891,16 @@ fn check_meta(c: &MetaCase, st: &mut Stats) -> Result<(), Fail> {
         if c.wrappers.contains(&W::ErrFirst) && c.anchor.args.iter().any(|a| a == "--arg" || a == "--argjson") && o.stdout_str().contains("undefined variable: $") {
             fail!(SIG_ERROR_ARG_SCOPE, {"case": case(), "got": show_out(&o), "expected": exp_render()});
         }
+        // the same scope loss seen through `?`/`try`: inside error(...) the --arg variable is
+        // undefined, the optional swallows that error, error() is left with no value
+        if c.wrappers.contains(&W::ErrFirst)
+            && c.anchor.args.iter().any(|a| a == "--arg" || a == "--argjson")
+            && c.program.contains('$')
+            && (c.program.contains(")?") || c.program.contains("try "))
+            && (o.stdout_str().contains("\"no value\"") || o.stderr_str().contains("no value"))
+        {
+            fail!(SIG_ERROR_ARG_SCOPE, {"case": case(), "got": show_out(&o), "expected": exp_render(), "note": "undefined-variable error swallowed by the optional, leaving error() with no value"});
+        }
         if c.errfirst_empty && (o.stdout_str().contains("\"no value\"") || o.stderr_str().contains("no value")) {
             fail!(SIG_ERROR_EMPTY, {"case": case(), "got": show_out(&o), "expected": exp_render()});
         }
